@@ -7,8 +7,14 @@ Each mutant is a textual replacement in one file under /repo/copulas.  It is app
 working tree, the check(s) named for it are run, and the tree is restored (git checkout).  A mutant is
 "caught" when at least one of its checks exits 1 with a VIOLATION line.  Nothing is ever committed.
 """
+import os
 import subprocess
 import sys
+
+REPO = os.environ.get('MUT_REPO', '/repo')          # a scratch worktree may be used instead of /repo
+ENV = dict(os.environ)
+if REPO != '/repo':
+    ENV['VMON_REPO'] = REPO
 
 M = []
 
@@ -135,15 +141,15 @@ def main(argv):
             tier = next(it)
         else:
             sel.append(a)
-    clean = subprocess.run(['git', '-C', '/repo', 'diff', '--quiet']).returncode == 0
+    clean = subprocess.run(['git', '-C', REPO, 'diff', '--quiet']).returncode == 0
     if not clean:
-        print('refusing: /repo has uncommitted changes')
+        print('refusing: %s has uncommitted changes' % REPO)
         return 3
     caught = missed = broken = 0
     for mid, props, path, old, new, count in M:
         if sel and not any(mid.startswith(s) for s in sel):
             continue
-        full = '/repo/copulas/' + path
+        full = REPO + '/copulas/' + path
         src = open(full).read()
         if src.count(old) != count:
             print('%-28s DOES NOT APPLY (%d occurrences)' % (mid, src.count(old)))
@@ -153,11 +159,11 @@ def main(argv):
             open(full, 'w').write(src.replace(old, new))
             results = []
             for p in props:
-                r = subprocess.run(['./check', p, '--tier', tier], cwd='/verif', capture_output=True, text=True)
+                r = subprocess.run(['./check', p, '--tier', tier], cwd=os.environ.get('MUT_VERIF', '/verif'), capture_output=True, text=True, env=ENV)
                 lines = [l for l in r.stdout.splitlines() if l.startswith('VIOLATION')]
                 results.append((p, r.returncode, lines[0].split('#')[-1].strip() if lines else ''))
         finally:
-            subprocess.run(['git', '-C', '/repo', 'checkout', '--', '.'])
+            subprocess.run(['git', '-C', REPO, 'checkout', '--', '.'])
         hit = [x for x in results if x[1] == 1]
         print('%-28s %s  %s' % (mid, 'CAUGHT' if hit else 'MISSED', '; '.join('%s:%d %s' % x for x in results)[:200]))
         caught += bool(hit)
